@@ -6,8 +6,9 @@ let rec pos_of_int (n : int) : positive =
 let z_of_int (n : int) : z = if n = 0 then Z0 else if n > 0 then Zpos (pos_of_int n) else Zneg (pos_of_int (-n))
 let rec int_of_pos (p : positive) : int = match p with XH -> 1 | XO q -> 2 * int_of_pos q | XI q -> 2 * int_of_pos q + 1
 let int_of_z (x : z) : int = match x with Z0 -> 0 | Zpos p -> int_of_pos p | Zneg p -> - (int_of_pos p)
-let rec nat_of_int (n : int) : nat = if n <= 0 then O else S (nat_of_int (n - 1))
-let int_of_nat (n : nat) : int = let rec go acc = function O -> acc | S m -> go (acc + 1) m in go 0 n
+type nat = int
+let nat_of_int (n : int) : nat = if n <= 0 then 0 else n
+let int_of_nat (n : nat) : int = n
 
 let parse_list (tok : string) : int list =
   if tok = "-" || tok = "" then [] else List.map int_of_string (String.split_on_char ',' tok)
